@@ -33,10 +33,11 @@ const modPrefix = "github.com/gammazero/nexus/v3/"
 
 // raceSide describes one of the two accesses of a report.
 type raceSide struct {
-	op      string // "read" / "write"
-	fn      string // innermost function of this module on the stack (simrt skipped)
-	harness bool   // that function is harness code (or there is none)
-	stack   []string
+	op       string // "read" / "write"
+	fn       string // innermost function of this module on the stack (simrt skipped)
+	harness  bool   // that function is harness code (or there is none)
+	director bool   // the access was made by the scheduler's director goroutine
+	stack    []string
 }
 
 func parseRaceSide(block string) raceSide {
@@ -55,6 +56,9 @@ func parseRaceSide(block string) raceSide {
 		}
 		f := strings.TrimSpace(l)
 		rs.stack = append(rs.stack, f)
+		if strings.HasPrefix(f, modPrefix+"simrt.(*Sched).Run(") {
+			rs.director = true
+		}
 		if rs.fn != "?" || !strings.HasPrefix(f, modPrefix) {
 			continue
 		}
@@ -97,6 +101,13 @@ func CollectRaces(res *Result) {
 			b0 = b0[i+1:] // drop the WARNING line
 		}
 		a, c := parseRaceSide(b0), parseRaceSide(blocks[1])
+		if a.director || c.director {
+			// the director runs with synchronisation events ignored (that is
+			// how the scheduler stays invisible); what it touches in the
+			// standard library (timers, sync.Once inside time) is not the program's
+			res.Probes["race_reports_director_artifact"]++
+			continue
+		}
 		if a.harness && c.harness {
 			res.Probes["race_reports_harness_internal"]++
 			continue
